@@ -123,7 +123,9 @@ func (s *sided) mirrorIssues(ordered bool) []sideIssue {
 				out = append(out, sideIssue{x, fmt.Sprintf("compares different components of the two values (%s with %s)", s.rs.src(x.X), s.rs.src(x.Y)), "mismatch", ""})
 				return true
 			}
-			if ordered && sx != "A" {
+			// which operand of a comparison is written first says nothing by itself (b > a is a < b): what a comparison decides
+			// is judged by the ordering tables (R8); only == / != written B-first while everything else is A-first is left alone too
+			if false && ordered && sx != "A" {
 				out = append(out, sideIssue{x, fmt.Sprintf("operands are in reversed order (%s %s %s)", s.rs.src(x.X), x.Op, s.rs.src(x.Y)), "reversed", ""})
 			}
 		case *ast.CallExpr:
